@@ -21,6 +21,7 @@
 
 #include <debug.h>
 #include <osmocom/core/linuxlist.h>
+#include <osmocom/gsm/gsm_utils.h>
 
 #include <layer1/tdma_sched.h>
 #include <layer1/sched_gsmtime.h>
@@ -74,10 +75,12 @@ int sched_gsmtime(const struct tdma_sched_item *si, uint32_t fn, uint16_t p3)
 int sched_gsmtime_execute(uint32_t fn)
 {
 	struct sched_gsmtime_event *evt, *evt2;
+	/* frame numbers wrap at the end of the hyperframe */
+	uint32_t fn_sched = (fn + SCHEDULE_AHEAD) % GSM_MAX_FN;
 	int num = 0;
 
 	llist_for_each_entry_safe(evt, evt2, &active_evts, list) {
-		if (evt->fn == fn + SCHEDULE_AHEAD) {
+		if (evt->fn == fn_sched) {
 			printd("sched_gsmtime_execute(time=%u): fn=%u si=%p\n", fn, evt->fn, evt->si);
 			tdma_schedule_set(SCHEDULE_AHEAD-SCHEDULE_LATENCY,
 					  evt->si, evt->p3);
@@ -85,7 +88,7 @@ int sched_gsmtime_execute(uint32_t fn)
 			/* put event back in list of inactive (free) events */
 			llist_add(&evt->list, &inactive_evts);
 			num++;
-		} if (evt->fn > fn + SCHEDULE_AHEAD) {
+		} if (evt->fn > fn_sched) {
 			/* break the loop as our list is ordered */
 			break;
 		}
